@@ -82,8 +82,9 @@ def lint(project, source, filename=None, debug=False):
             continue
         if getattr(name, 'is_star', None):
             continue
-        if name.name in flow.scope.nonlocals:
+        if name.name in flow.scope.nonlocals and not getattr(name, 'comprehension', False):
             # rebinding of an enclosing function's variable, not a local
+            # (the variable of a comprehension is its own whatever is declared)
             continue
         if isinstance(flow.scope, IGNORED_SCOPES):
             if isinstance(name, ImportedName):
